@@ -146,6 +146,39 @@ def cached_waiter_histories(ctx):
                 ctx.case({"cached-waiter": N, "gate": gate_kind, "body_cached": cache_body}, True)
 
 
+def reopened_gate_and_falsy_values(ctx):
+    """Directed. (1) A waiting gate that first answers END and whose signal is then produced AGAIN together with a new
+    value of its input (two ordered producers of the value and the signal): it decides again, and the branch it now
+    selects runs. (2) Waiters on a VALUE name whose produced value is falsy (0, False, '', [], {}, None): a production
+    is a production whatever the value is."""
+    for first_target in ("END", "pub"):
+        for node_order in (0, 1):
+            nodes = [
+                {"k": "fn", "name": "p1", "params": [{"n": "x"}], "outs": ["v"], "emit": ["ready"], "beh": ["const", 0 if first_target == "END" else 7]},
+                {"k": "route", "name": "gate", "params": [{"n": "v"}], "targets": ["pub", "END"], "wait": ["ready"], "emit": ["decided"], "cond": ["ge", "v", 1], "then": "pub", "else": "END", "open": False},
+                {"k": "fn", "name": "p2", "params": [{"n": "y"}], "outs": ["v"], "wait": ["decided"], "emit": ["ready"], "beh": ["const", 5]},
+                {"k": "fn", "name": "pub", "params": [{"n": "v"}], "outs": ["out"], "beh": ["mark", "v", "pub"]},
+            ]
+            if node_order:
+                nodes.reverse()
+            spec = {"name": "reopen", "nodes": nodes, "bind": {}}
+            lref = {"counts": {"p1": 1, "gate": 2, "p2": 1, "pub": 1 if first_target == "END" else 2}, "values": {"v": 5, "out": ("pub", 5)}}
+            for runner in ("sync", "async"):
+                one(ctx, spec, {"x": "run:x", "y": "run:y"}, runner, f"reopened-gate({first_target} first)-{runner}", loop_ref=lref)
+                ctx.obs["reopened_gate_runs"] += 1
+    for falsy in (0, False, "", [], {}, None):
+        # DAG: validate(x) -> errors (falsy); publish(x) waits for the VALUE name errors
+        spec = {"name": "fdag", "nodes": [
+            {"k": "fn", "name": "validate", "params": [{"n": "x"}], "outs": ["errors"], "beh": ["const", falsy]},
+            {"k": "fn", "name": "publish", "params": [{"n": "x"}], "outs": ["published"], "wait": ["errors"], "beh": ["mark", "x", "pub"]},
+        ], "bind": {}}
+        lref = {"counts": {"validate": 1, "publish": 1}, "values": {"errors": falsy, "published": ("pub", "run:x")}}
+        for runner in ("sync", "async"):
+            one(ctx, spec, {"x": "run:x"}, runner, f"falsy-value-waiter({falsy!r})-{runner}", loop_ref=lref)
+            ctx.obs["falsy_value_waiter_runs"] += 1
+    ctx.case({"directed": "reopened-gate-and-falsy-values"}, True)
+
+
 def run(ctx):
     n = 700 if ctx.tier == "quick" else 9000
     if ctx.replay:
@@ -156,6 +189,7 @@ def run(ctx):
         return
     if ctx.shard[0] == 0:
         cached_waiter_histories(ctx)
+        reopened_gate_and_falsy_values(ctx)
     sysn = 0
     for N in range(0, 10 if ctx.tier == "thorough" else 6):
         for kind, obs in (("counter", 0), ("chat", 0), ("counter", 2)):
